@@ -318,6 +318,10 @@ def finish(ctx):
               violations=len(new), known_findings_hit=sorted(old.keys()), notes=ctx.notes)
     # extension checks (X01, X02, ...: behaviour outside the 20 listed properties) keep their evidence apart
     evdir = os.path.join(VERIF, "ext", "evidence") if ctx.prop.startswith("X") else os.path.join(VERIF, "evidence")
+    if os.environ.get("VERIF_EXTRA_OVERLAY"):
+        # a run against an overlaid (seeded / mutated) tree is an experiment: its evidence must not replace the
+        # evidence of /repo itself
+        evdir = os.environ.get("VERIF_EVIDENCE_DIR") or os.path.join("/tmp", "vf_overlay_evidence")
     os.makedirs(evdir, exist_ok=True)
     json.dump(ev, open(os.path.join(evdir, ctx.prop + ".json"), "w"), indent=1, default=str)
     if rc == 0:
